@@ -20,3 +20,12 @@ static void Task2_execute(int i, int j) { if (i == gi && j == gj) g2_cnt++; if (
 struct TriangleTask { const struct P2* executor; int rangeType; int width; };
 struct SquareTask { const struct P2* executor; const struct IntPair* squares; int squares_n; int rangeType; };
 static struct IntPair SquareList_get(const struct SquareTask* t, int index) { __CPROVER_assert(0 <= index && index < t->squares_n, "squares[index] in range"); return t->squares[index]; }
+
+/* the call addTriangle(0,0,0,levels) inside init: the real recursion, or (levels unit, -DNO_REC) a recorder of its arguments,
+   so that "what init passes to the recursion" is decided for ALL numProcessors while the recursion itself is unwound per levels value */
+extern int g_at_calls, g_at_x, g_at_y, g_at_pass, g_at_level;
+#ifdef NO_REC
+#define INIT_ADDTRIANGLE(self, x, y, pass, level) (g_at_calls++, g_at_x = (x), g_at_y = (y), g_at_pass = (pass), g_at_level = (level))
+#else
+#define INIT_ADDTRIANGLE(self, x, y, pass, level) addTriangle(self, x, y, pass, level)
+#endif
